@@ -8,7 +8,7 @@ use std::sync::Arc;
 use std::time::Duration;
 
 use crate::checks;
-use crate::disk::{DevOp, FaultKind, FaultPlan, ALL_FSYNC_FAULTS, ALL_WRITE_FAULTS};
+use crate::disk::{DevOp, FaultKind, FaultPlan, ALL_ENTER_FAULTS, ALL_FSYNC_FAULTS, ALL_WRITE_FAULTS};
 use crate::engines::crash::{check_recovered, contents, Contents, Trans, WorkloadRun};
 use crate::harness::{self, Env, Resolver};
 use crate::model::{Call, ErrKind, Gen, Model, Res};
@@ -64,6 +64,7 @@ impl Engine for FaultEngine {
             sweeper: None,
             create_empty_file: false,
             allow_ambiguous: false,
+            ring: gen_ring(seed),
         };
         let n_ops = 6 + w.below(if tier == "thorough" { 40 } else { 24 }) as usize;
         let mut ops = Vec::new();
@@ -171,6 +172,7 @@ impl Engine for FaultEngine {
                 DevOp::Write => &ALL_WRITE_FAULTS,
                 DevOp::Fsync => &ALL_FSYNC_FAULTS,
                 DevOp::Read => &[FaultKind::ReadFail],
+                DevOp::Enter => &ALL_ENTER_FAULTS,
             }
         };
         let mut plans: Vec<FaultPlan> = Vec::new();
@@ -188,6 +190,9 @@ impl Engine for FaultEngine {
                     if sc.knob("read_faults", 0) == 1 {
                         kinds.push(FaultKind::ReadFail);
                     }
+                    if sc.store.ring != 0 {
+                        kinds.extend([FaultKind::RingEnterFail, FaultKind::RingEintr, FaultKind::RingSqFull]);
+                    }
                     // swarm: a random subset of kinds
                     kinds.retain(|_| pick.chance(2, 3));
                     if kinds.is_empty() {
@@ -204,8 +209,17 @@ impl Engine for FaultEngine {
             1 | 2 => {
                 let all = want < 0;
                 let n = if all { candidates.len() } else { (want as usize).min(candidates.len()) };
+                // with the simulated ring, half of the sampled points are its enter calls (few per run,
+                // and the only place where an indeterminate outcome arises)
+                let enters: Vec<(u64, DevOp)> = candidates.iter().filter(|(_, op)| *op == DevOp::Enter).cloned().collect();
                 for i in 0..n {
-                    let (call, op) = if all { candidates[i] } else { candidates[pick.below(candidates.len() as u32) as usize] };
+                    let (call, op) = if all {
+                        candidates[i]
+                    } else if !enters.is_empty() && pick.chance(1, 2) {
+                        enters[pick.below(enters.len() as u32) as usize]
+                    } else {
+                        candidates[pick.below(candidates.len() as u32) as usize]
+                    };
                     let kinds = kinds_for(op);
                     let chosen: Vec<FaultKind> = if all {
                         kinds.iter().copied().filter(|k| matches!(k, FaultKind::WriteFailBefore | FaultKind::WriteFailAfter | FaultKind::FsyncFail | FaultKind::FsyncFailAfter)).collect()
